@@ -286,7 +286,7 @@ theorem aexitG (ig : Bool) (d : Int) (s s1 : TS) (r : Res) (hpost : PostG (enter
           have hnm : m ∉ s1.deadlines := hst m hm
           have hmd : m ≠ d := by intro h; apply hnm; rw [hds1, h]; simp
           rw [aexit_stale _ _ _ _ _ rfl hm hmd hnm]
-          simp only [reduceCtorEq, if_false]
+          simp only []
           refine base _ (Or.inl ⟨hdel, ?_, hfz, strong_inv hSz⟩)
           intro m' h'; rw [hmk, hm] at h'; simp at h'; subst h'
           rw [hdz]; intro hc; apply hnm; rw [hds1]; simp [hc]
